@@ -137,12 +137,18 @@ def gen_colvar(r, name, ext_ok=True):
 BIAS_KINDS = ["harmonic", "harmonicWalls", "linear", "histogram", "abf", "metadynamics"]
 
 
-def gen_bias(r, name, cvs, counters=None):
+def gen_bias(r, name, cvs, counters=None, like=None):
     """cvs: list of live colvar dicts; returns None when no suitable variable exists.
     counters: per-kind number of biases defined so far (colvarmodule::num_biases_types_used_: only grows, cleared by reset);
     an UNNAMED bias gets the default name <kind in lower case><rank>"""
-    kind = r.choice(BIAS_KINDS)
-    if kind in ("abf", "metadynamics", "histogram", "harmonicWalls", "linear"):
+    # like: a live bias; the new one is a SECOND HOLDER of whatever that kind requests of its variables by a top-level,
+    # uncounted enable (abf: grid, hide_Jacobian_force; histogram, metadynamics: grid) -- same kind, same variables
+    kind = like["kind"] if like else r.choice(BIAS_KINDS)
+    if like:
+        cand = [c for c in cvs if c["name"] in like["cvs"]]
+        if len(cand) != len(set(like["cvs"])):
+            return None
+    elif kind in ("abf", "metadynamics", "histogram", "harmonicWalls", "linear"):
         cand = [c for c in cvs if c["scalar"] and (c["opts"].get("grid") or kind in ("harmonicWalls", "linear"))]
     else:
         cand = list(cvs)
@@ -150,6 +156,8 @@ def gen_bias(r, name, cvs, counters=None):
         return None
     n = 1 if (kind == "abf" or r.random() < 0.7) else min(2, len(cand))
     sel = r.sample(cand, n)
+    if like:
+        sel, n = cand, len(cand)
     unnamed = False
     if counters is not None:
         counters[kind] = counters.get(kind, 0) + 1
@@ -178,6 +186,8 @@ def gen_bias(r, name, cvs, counters=None):
         L += ["  centers " + " ".join(["0.0"] * n), "  forceConstant 1.0"]
     elif kind == "abf":
         L += ["  fullSamples 2"]
+        if r.random() < 0.5 or (like and "hideJacobian on" in like["conf"]):
+            L += ["  hideJacobian on"]      # top-level enable of the user feature hide_Jacobian_force in the variable, not counted
     elif kind == "metadynamics":
         L += ["  hillWeight 0.25", "  newHillFrequency 2", "  hillWidth 1.0"]
     if r.random() < 0.15:
@@ -204,7 +214,8 @@ def gen_sequence(r, k, length, with_set=True):
             cvs.append(c)
             ev.append({"op": "addcv", "cv": c})
         elif x < 0.45:
-            b = gen_bias(r, "b%d" % nb, cvs, counters)
+            holders = [bb for bb in biases if bb["kind"] in ("abf", "histogram", "metadynamics")]
+            b = gen_bias(r, "b%d" % nb, cvs, counters, like=(r.choice(holders) if holders and r.random() < 0.35 else None))
             if b is None:
                 continue
             nb += 1
@@ -672,6 +683,17 @@ W_F8 = ("natoms 2\nnew\nconfig EOF\n" + XZ + HARM % ("h", "") + "EOF\nscriptset 
         "save text w8.colvars.state\nload w8\nsave binary w8b.colvars.state\nload w8b\npos 1 0 0 2.0\nstep\necho END\n")
 
 
+# H: a feature of a variable requested by a top-level, UNCOUNTED enable of a bias (abf with hideJacobian: hide_Jacobian_force; also
+# grid) has two holders; one is deleted: nothing may be given back on behalf of the other
+XG = ("colvar {\n  name x\n  lowerBoundary 0.0\n  upperBoundary 8.0\n  width 0.5\n  distance {\n    group1 { atomNumbers 1 }\n"
+      "    group2 { atomNumbers 2 }\n  }\n}\n")
+ABF_H = "abf {\n  name %s\n  colvars x\n  fullSamples 2\n  hideJacobian on\n}\n"
+W_H = ("natoms 2\ntemperature 300.0\nnew\nconfig EOF\n" + XG + ABF_H % "a1" + ABF_H % "a2" + "EOF\npos 1 0 0 1.0\nstep\ndumpdeps\n"
+       "script cv bias a1 delete\ndumpdeps\npos 1 0 0 1.25\nstep\npos 1 0 0 1.5\nstep\necho END\n")
+W_H_REF = ("natoms 2\ntemperature 300.0\nnew\nconfig EOF\n" + XG + ABF_H % "a2" + "EOF\npos 1 0 0 1.0\nstep\n"
+           "pos 1 0 0 1.25\nstep\npos 1 0 0 1.5\nstep\necho END\n")
+
+
 # N: default names.  Two unnamed harmonic restraints (harmonic1, harmonic2), the older one deleted, a third defined: it must not
 # take the name of the survivor; then the survivor is deleted BY NAME: exactly the third one must remain
 HARM_U = "harmonic {\n  colvars x\n  centers %s\n  forceConstant 2.0\n}\n"
@@ -745,6 +767,25 @@ def replay_witnesses(run, unit, d, tabs, model):
         run.violation(F8, "harmonic h (fixed centers), `cv bias h set \"output_accumulated_work\" 1`, a step, state written and read back: %s "
                       "(set_state_params requires the keyword accumulatedWork, get_state_params writes it only for moving restraints)" % " | ".join(loads),
                       {"kind": "scenario", "scenario": W_F8})
+    # H: two holders of an uncounted top-level request, one deleted
+    rc, o, e = run_scn(unit, d, W_H)
+    rc2, o2, e2 = run_scn(unit, d, W_H_REF)
+    dumps = D.parse_deps_blocks(o.split("\n"))
+    run.count("witness:H", True)
+    if "echo END" not in o or "echo END" not in o2 or len(dumps) != 2 or "CONFIG err=ok" not in o:
+        run.violation("witness:H:crash", "the witness of uncounted top-level requests does not run (rc=%d): %s" % (rc, (o[-200:] + e[-200:])), {"kind": "scenario", "scenario": W_H})
+    else:
+        hj = [i for i, ft in enumerate(tabs[1]) if ft["D"] == "hide_Jacobian_force"]
+        run.dist("witness:H:hide_Jacobian-on" if hj and dumps[0]["objs"][0]["fs"][hj[0]][1] else "witness:H:hide_Jacobian-off")
+        u = D.monitor_user(tabs, dumps[0], dumps[1])
+        A, B = last_step_block(o), last_step_block(o2)
+        if u:
+            run.violation("uncounted-request-given-back", "variable x, abf a1 and abf a2 both with hideJacobian on (each enables hide_Jacobian_force of x by a "
+                          "top-level enable that is not counted); `cv bias a1 delete`: %s" % u[0][1], {"kind": "identity", "scenario": W_H, "reference": W_H_REF})
+        elif not obs_equal(A, B):
+            run.violation("uncounted-request-given-back:observables", "two abf biases with hideJacobian on x, one deleted: the last step differs from the run in which "
+                          "it never existed: %s instead of %s" % ([l for l in A if l not in B][:4], [l for l in B if l not in A][:4]),
+                          {"kind": "identity", "scenario": W_H, "reference": W_H_REF})
     # N: default names of unnamed biases stay distinct; deletion by name hits the right object
     rc, o, e = run_scn(unit, d, W_N)
     dumps = D.parse_deps_blocks(o.split("\n"))
@@ -898,9 +939,13 @@ def check(run):
         prev = {"objs": [], "atoms": {}}
         prev_bad = set()
         tainted = False
-        tsfs = tsf_map(seq)
+        tsfs = {}                      # timeStepFactor of the live objects, by dump description (default names are reused after a reset)
         nops, live_b = [], {}          # naming model: operations, and the unnamed biases believed alive (name -> (kind index, rank))
         for i, (ev, blk) in enumerate(zip(seq["events"], blocks)):
+            if ev["op"] in ("addcv", "addbias"):
+                tsfs.update(tsf_map({"events": [ev]}))
+            elif ev["op"] == "reset":
+                tsfs = {}
             if ev["op"] == "addbias":
                 bb = ev["bias"]
                 kidx = BIAS_KINDS.index(bb["kind"])
